@@ -164,7 +164,7 @@ def rcpt_ref_ok(seq, ret, dom, flagrh, fdm):
 
 class SmtpdHooks(QHooks):
     inline_unit = 'qmail-smtpd.c'
-    no_inline = frozenset(['addrparse', 'bmfcheck', 'addrallowed', 'blast', 'acceptmessage', 'dohelo', 'smtp_greet', 'flush', 'out', 'put',
+    no_inline = frozenset(['addrparse', 'bmfcheck', 'blast', 'acceptmessage', 'dohelo', 'smtp_greet', 'flush', 'out', 'put',
                            'die_nomem', 'die_control', 'die_read', 'die_alarm', 'straynewline'])
     tracked = frozenset(['G:seenmail', 'G:flagbarf', 'G:rcptto', 'G:relayclient'])
     inline_depth = 3
@@ -173,6 +173,7 @@ class SmtpdHooks(QHooks):
         self.trans = []      # (handler, pre, post, events)
         self.handler = None
         self.pre = None
+        self.gates = 0
 
     def materialize(self, E, path):
         if path == 'G:rcptto.len':
@@ -213,10 +214,6 @@ class SmtpdHooks(QHooks):
         self.ev(E, ('bmfcheck', g1(E, '$parsed')))
         return [Outcome(ret=fs(0)), Outcome(ret=fs(1))]
 
-    def prim_addrallowed(self, E, x, args):
-        self.ev(E, ('addrallowed',))
-        return [Outcome(ret=fs(0), log='rcpthosts: not allowed'), Outcome(ret=fs(1), log='rcpthosts: allowed')]
-
     def _sa(self, E, x):
         a = x.args[0].strip()
         return a.args[0].path() if a.k == 'un' and a.op == '&' else None
@@ -243,6 +240,16 @@ class SmtpdHooks(QHooks):
         return [Outcome(ret=fs(1))]
 
     prim_stralloc_0 = prim_stralloc_append
+    # the same operations spelt with an explicit length or a stralloc source
+    prim_stralloc_copyb = prim_stralloc_copy = prim_stralloc_copys
+    prim_stralloc_catb = prim_stralloc_cat = prim_stralloc_cats
+
+    def prim_rcpthosts(self, E, x, args):
+        # the relay gate (smtp_rcpt reaches it directly or through its addrallowed() wrapper, which is part of it): a control-file error ends the process
+        self.ev(E, ('addrallowed',))
+        self.gates += 1
+        return [Outcome(ret=fs(0), sets={'$gate': fs(0)}, log='rcpthosts: not allowed'), Outcome(ret=fs(1), sets={'$gate': fs(1)}, log='rcpthosts: allowed'),
+                Outcome(ret=fs(-1), sets={'$gate': fs(-1)}, log='rcpthosts: control file unreadable')]
 
     def prim_qmail_open(self, E, x, args):
         self.ev(E, ('qmail_open', g1(E, 'G:seenmail', '?'), g1(E, '$rcpt', 0)))
@@ -268,7 +275,10 @@ class SmtpdHooks(QHooks):
         sm = E.get('G:seenmail')
         fb = E.get('G:flagbarf')
         post = (next(iter(sm)) if sm is not TOP and len(sm) == 1 else '?', g1(E, '$rcpt', 0), next(iter(fb)) if fb is not TOP and len(fb) == 1 else '?')
-        self.trans.append((self.handler, self.pre, post, tuple(g1(E, '$ev', ())), E.trace.list()))
+        evs = tuple(g1(E, '$ev', ()))
+        if g1(E, '$gate') is not None:
+            evs += (('gate', g1(E, '$gate')),)
+        self.trans.append((self.handler, self.pre, post, evs, E.trace.list()))
 
 
 def run(ctx):
@@ -319,6 +329,8 @@ def run(ctx):
 
     r1 = rep.rule('C08.1-handler-contracts', 'R-TYPESTATE', 'per handler and abstract state: rejected MAIL/RCPT change nothing; accepted MAIL opens a fresh transaction with the sender just parsed and the bad-sender verdict for it; a recipient is recorded exactly when 250 is sent; DATA opens the queue only with MAIL and a recipient; HELO/EHLO/RSET/DATA close the transaction')
     seen_handlers = set()
+    gate_rows, gate_err = [], []
+    n_gates = H.gates
     for h, pre, post, ev, tr in H.trans:
         seen_handlers.add(h)
         rs = reply(ev)
@@ -335,12 +347,16 @@ def run(ctx):
                 r1.check(len(bm) == 1 and bm[0][1] == 1, 'MAIL:bad-sender-verdict-taken-for-the-parsed-address', 'qmail-smtpd.c:smtp_mail', 'bmfcheck events %s' % bm, tr)
         elif h == 'smtp_rcpt':
             added = [e for e in ev if e[0] == 'rcptto+=']
+            if ('gate', -1) in ev:
+                gate_err.append(tr)
             if code == '250':
                 ok = pre[0] == 1 and pre[2] == 0 and post[1] == 1 and [a[1] for a in added] == ['T', 'addr.s']
                 r1.check(ok, 'RCPT:250-iff-recipient-recorded(needs-MAIL,not-barred)', 'qmail-smtpd.c:smtp_rcpt', 'RCPT 250 from state %s with appends %s' % (pre, added), tr)
                 allowed = any(e[0] == 'addrallowed' for e in ev)
                 relay = any(e[0] == 'addr+=' for e in ev)
                 r1.check(allowed != relay, 'RCPT:accepted-via-rcpthosts-xor-relayclient', 'qmail-smtpd.c:smtp_rcpt', 'events %s' % [e[0] for e in ev], tr)
+                if not relay:
+                    gate_rows.append((('gate', 1) in ev, [e for e in ev if e[0] == 'gate'], tr))
             else:
                 r1.check(not added and post == pre, 'RCPT:rejected-command-records-nothing', 'qmail-smtpd.c:smtp_rcpt', 'RCPT answered %s from %s to %s with appends %s' % (code, pre, post, added), tr)
         elif h == 'smtp_data':
@@ -406,10 +422,11 @@ def run(ctx):
     suf = [c for c in rc.calls('stralloc_cats') if c.args[1].path() == 'G:relayclient']
     r3.check(bool(suf) and all(any(branch_zero_test(c, t, lambda v: v.path() == 'G:relayclient') == 'nonzero' for c, t in rc.guards(s_) or []) for s_ in suf),
              'relay-suffix-only-under-relayclient', rc.unit + ':smtp_rcpt', 'the relay suffix is appended on a path where RELAYCLIENT is not known to be set')
-    aal = rc.calls('addrallowed')
-    r3.check(bool(aal) and all(any(branch_zero_test(c, t, lambda v: v.path() == 'G:relayclient') == 'zero' for c, t in rc.guards(s_) or []) for s_ in aal) and
-             all(rc.can_reach(rc.pos[a_.id][0], rc.pos[c_.id][0]) or True for a_ in aal for c_ in rc.calls('stralloc_cats')),
-             'non-relay-clients-pass-addrallowed', rc.unit + ':smtp_rcpt', '')
+    badg = [g_ for g_ in gate_rows if not g_[0]]
+    if not gate_rows and not n_gates:
+        raise AnalysisBroken('smtp_rcpt: the rcpthosts() gate was never reached')
+    r3.check(not badg, 'non-relay-clients-pass-addrallowed', rc.unit + ':smtp_rcpt',
+             'a recipient is accepted for a client without RELAYCLIENT although rcpthosts() answered %s' % (badg[0][1] if badg else ''), badg[0][2] if badg else None)
     bm = prog.fn('bmfcheck', 'qmail-smtpd.c')
     nb = 0
     for a_ in ('a@b', '"a@b"@c', 'ab', '', 'A@B.c', '@', 'x@'):
@@ -505,13 +522,7 @@ def run(ctx):
                          bad_[0][2] if bad_ else None)
     r4.check(ncell >= 60, 'rcpthosts-cells-explored', rh.unit + ':rcpthosts', '%d' % ncell)
     rep.exhaustive_rules.append('C08.4-rcpthosts')
-    aa = prog.fn('addrallowed', 'qmail-smtpd.c')
-    dc = deep_calls(prog, aa, 'die_control', depth=1)
-    okp = bool(dc)
-    for f_, c_ in dc:
-        cv = consistent_values(f_, c_, (-1, 0, 1), key=lambda v: 'r')
-        okp = okp and cv.get('r') == {-1}
-    rets = [x for x in aa.all_x() if x.k == 'ret' and x.args]
-    r4.check(okp and bool(rets), 'cdb-error->die_control', 'qmail-smtpd.c:addrallowed', 'die_control() must be reached exactly when rcpthosts() reports -1')
+    r4.check(not gate_err and n_gates > 0, 'cdb-error->die_control', 'qmail-smtpd.c:smtp_rcpt', 'smtp_rcpt() goes on after rcpthosts() reported -1 (control file unreadable): the process must end with die_control()',
+             gate_err[0] if gate_err else None)
     r4.expect_min(60)
     rep.assume('addrparse(), bmfcheck() and rcpthosts() results are abstract (any outcome) in the automaton', 'constmap/cdb lookups as string functions are not decided')
